@@ -214,6 +214,7 @@ def oracle(ctx, ss, np, rng):
         else:
             v = rnd_v(rng)
         vv = np.array([v, v / 2, v]) if isarr else v
+        if isarr and kind in ('rate_prob', 'rate', 'dur') and rng.random() < 0.3: v = float(int(v) + 1); vv = np.array([int(v), int(v) * 2, int(v)])      # integer-typed arrays are values in range too
         key = dict(kind=kind, v=v, unit=u, self_dt=sdt, parent_unit=pu, parent_dt=pdt, array=isarr)
         try:
             p = K(vv, unit=u, parent_unit=pu, parent_dt=pdt, self_dt=sdt).init()
